@@ -18,3 +18,4 @@ open PgmVerif
 #print axioms PgmVerif.C04_scalar_neutral
 #print axioms PgmVerif.C04_normalize_scale
 #print axioms PgmVerif.C04_divide_product_cancel
+#print axioms PgmVerif.C04_reduce_order_irrelevant
